@@ -718,6 +718,13 @@ func init() {
 			}
 			autoreceiveHistory(c, 2+i%2, sc)
 		}
+		// the spork regime changes during the history, calls in flight across every enforcement height (runSporkSwitch): two of
+		// the six orders per run in the quick tier (chosen by the seed), all six in the thorough tier
+		for i, o := range arSporkSwitchOrders {
+			if c.Tier == "thorough" || c.Args["switch"] == "all" || i%3 == int(c.Seed%3) {
+				autoreceiveHistory(c, 4*i, "spork-switch:"+o)
+			}
+		}
 		// the boundary-integer sweep (s_autoreceive_sweep.go): every method x every integer argument and the amount x the
 		// boundary family, under all sporks; in the thorough tier also under the other spork regimes
 		autoreceiveHistory(c, 3, "int-sweep:0/1")
